@@ -12,9 +12,9 @@ func (f Bracket) Append(buf []byte, bracket, first bool) []byte {
 	return buf
 }
 
-func (f Bracket) locate(pp Expr, data any, rest Expr, max int) (locs []Expr) {
+func (f Bracket) locate(pp Expr, data any, rest Expr, max int, root any) (locs []Expr) {
 	if 0 < len(rest) {
-		locs = rest[0].locate(pp, data, rest[1:], max)
+		locs = rest[0].locate(pp, data, rest[1:], max, root)
 	}
 	return
 }
